@@ -126,11 +126,24 @@ class BaseSQLURLTable(BaseURLTable):
 
                 added_urls = get_inserted_urls()
 
-            hostnames = (URLInfo.parse(url).hostname for url in added_urls)
-            session.execute(
-                insert(Hostname).prefix_with('OR IGNORE'),
-                [{'hostname': hostname} for hostname in hostnames]
+            # Only the hosts of the start URLs (level 0) make up the crawl's
+            # own hosts; hosts of links must not widen the span-hosts
+            # filter of a later run on the same database.
+            added_hostnames = dict(
+                (url, URLInfo.parse(url).hostname) for url in added_urls
             )
+            hostnames = set(
+                added_hostnames[url]
+                for url, url_properties, url_data in new_urls
+                if url in added_hostnames and
+                not (url_properties and url_properties.level)
+            )
+
+            if hostnames:
+                session.execute(
+                    insert(Hostname).prefix_with('OR IGNORE'),
+                    [{'hostname': hostname} for hostname in hostnames]
+                )
 
         return added_urls
 
